@@ -4,12 +4,13 @@ from core import *
 from core import verdicts as core_verdicts
 
 PID = "C12"
-NFRAG, NMODELS = 13, 8
+NFRAG, NMODELS = 14, 9
 FRAG = {1: "partition model solved", 2: "class-LMI + user LMI model solved", 3: "composite function model solved",
         4: "linear operator with transpose + LMI solved", 5: "construction that raises", 6: "model built and abandoned",
         7: "unbounded solve (None)", 8: "solved model kept referenced and evaluated", 9: "verbose solve",
         10: "solve with trace heuristic", 11: "unsent LMI object, named point, solved", 12: "good solve then infeasible solve",
-        13: "DSL objects built with the bare classes, no PEP"}
+        13: "DSL objects built with the bare classes, no PEP",
+        14: "solve with its own solver options, everything evaluated afterwards"}
 
 
 def _cfg(maxhist, forget="{}", trace=False, emit=True):
